@@ -1604,7 +1604,7 @@ func (e *Engine) deleteSeriesRange(seriesKeys [][]byte, min, max int64) error {
 		return nil
 	})
 
-	if !overlapsTimeRangeMinMax && e.Cache.store.count() > 0 {
+	if !overlapsTimeRangeMinMax && e.Cache.Count() > 0 {
 		overlapsTimeRangeMinMax = true
 	}
 
